@@ -293,6 +293,12 @@ fn small_configs() -> Vec<Cfg> {
             }
         }
     }
+    // RollSum needs no warm-up: the reader accepts a window larger than the maximum chunk size
+    for (mn, mx, w) in [(0usize, 2usize, 3usize), (1, 2, 4), (0, 3, 8), (2, 2, 5), (0, 1, 3)] {
+        for b in 1..=2u32 {
+            v.push(Cfg::Roll(b, mn, mx, w));
+        }
+    }
     v.push(Cfg::Fixed(1));
     v.push(Cfg::Fixed(3));
     v.push(Cfg::Fixed(4));
@@ -318,6 +324,11 @@ pub fn rand_config(rng: &mut Rng) -> Cfg {
     };
     let b = rng.range(1, 9) as u32;
     if rng.chance(1, 2) {
+        if rng.chance(1, 6) {
+            // window larger than the maximum chunk size (accepted for RollSum only)
+            let mx2 = rng.range(1, w as u64 + 1) as usize;
+            return Cfg::Roll(b, rng.below(mx2 as u64 + 1) as usize, mx2, w + rng.range(1, 40) as usize);
+        }
         Cfg::Roll(b, mn, mx, w)
     } else {
         Cfg::Buz(b, mn, mx, w)
